@@ -49,6 +49,16 @@ REG = {
         dict(name='c08::fq_from_repr_acceptance', tier='quick', t=1800, stubbing=True),
         dict(name='c08::fr_from_repr_acceptance', tier='quick', t=1800, stubbing=True),
     ],
+    'c04': [
+        dict(name='c04::g1_uncompressed', tier='quick', t=2400, stubbing=True),
+        dict(name='c04::g1_compressed', tier='quick', t=2400, stubbing=True),
+        dict(name='c04::g2_uncompressed', tier='quick', t=3600, stubbing=True, mem=24),
+        dict(name='c04::g2_compressed', tier='quick', t=3600, stubbing=True, mem=24),
+    ],
+    'c05': [
+        dict(name='c04::g1_encode_roundtrip', tier='quick', t=2400, stubbing=True),
+        dict(name='c04::g2_encode_roundtrip', tier='quick', t=3600, stubbing=True, mem=24),
+    ],
 }
 
 SLOTS = int(os.environ.get('VERIF_KANI_JOBS', '8'))
@@ -166,3 +176,13 @@ def run_harnesses(ctx, prefix, tier_filter=True, only=None):
         chk.kani.append(r)
         print('  kani %-45s %-8s checks=%s covers=%s/%s %.0fs' % (r['harness'], r['status'], r['checks'], r['covers_sat'], r['covers'], r['seconds']))
     return results
+
+
+def report_failures(ctx, keyprefix):
+    """a FAILED harness is a concrete counterexample inside the bound: report it with the failing checks"""
+    for k in ctx.chk.kani:
+        if k['status'] == 'FAILED' and not k.get('handled'):
+            k['handled'] = True
+            ctx.violation('%s:%s' % (keyprefix, k['harness']), 'Kani found a counterexample in %s: %s' % (k['harness'], '; '.join(k.get('failed_checks', [])[:3])),
+                          {'harness': k['harness'], 'failed_checks': k.get('failed_checks'),
+                           'how': 'cd /verif/kani (Cargo.toml from Cargo.toml.in with @REPO@ = /repo); cargo kani --harness %s -Z stubbing -Z concrete-playback --concrete-playback=print' % k['harness']})
